@@ -66,7 +66,15 @@ TARGETS = [
 IGNORED_GLOBALS = {"cout", "cerr", "cin", "clog", "endl"}     # I/O streams are not domain state
 # documented process-wide state excluded by the property texts (C16: Rational::flags; C18: allocator free lists,
 # GMP random state).  They are still listed in the description, as `excluded`.
-EXCLUDED_GLOBALS = {"flags": "Rational::flags (documented global reduction switch, excluded by C16)"}
+EXCLUDED_GLOBALS = {"flags": "Rational::flags (documented global reduction switch, excluded by C16)",
+                    "TabFree": "GivMMFreeList free lists (process-wide allocator state, excluded by C18/C16 texts)",
+                    "logalloc": "allocator statistics of the free lists (process-wide allocator state)",
+                    "tablog": "allocator statistics of the free lists (process-wide allocator state)",
+                    "physalloc": "allocator statistics of the free lists (process-wide allocator state)",
+                    "TabSize": "size table of the free lists (process-wide allocator state)"}
+# random-generator state: a method that advances a generator is a randomised algorithm, outside both claims
+RANDOM_STATICS = {"randstate": "GMP random state behind Integer::random (process-wide, excluded by the property texts)"}
+RANDOM_TYPES = ("GivRandom", "RandomIterator", "RandIter")
 ASSIGN_OPS = {"=", "+=", "-=", "*=", "/=", "%=", "<<=", ">>=", "&=", "|=", "^="}
 FUNC_KINDS = ("CXXMethodDecl", "CXXConstructorDecl", "CXXDestructorDecl", "FunctionDecl", "CXXConversionDecl")
 CLASS_KINDS = ("ClassTemplateSpecializationDecl", "CXXRecordDecl", "ClassTemplatePartialSpecializationDecl")
@@ -147,7 +155,7 @@ def split_params(ftype):
 
 def ast_cache_key():
     srcs = vf.repo_sources() + [INST, os.path.abspath(__file__)]
-    return vf.file_hash(srcs, "c16-objmodel-v1")
+    return vf.file_hash(srcs, "c16-objmodel-v5")
 
 
 def dump_ast():
@@ -402,6 +410,7 @@ class FnInfo:
     def __init__(self, idx, node):
         self.idx = idx
         self.node = node
+        self._in_static_init = 0
         self.locals, self.static_locals = set(), {}
         self.reads = set()            # top-level own members read
         self.effects = []             # dicts
@@ -437,6 +446,7 @@ class FnInfo:
         pk = parent.get("kind") if parent else None
         t = qt(e)
         read = False
+        nonconst_callee = None
         if pk == "ImplicitCastExpr" and parent.get("castKind") == "LValueToRValue":
             read = True
         elif pk == "ImplicitCastExpr" and is_const_lvalue_type(qt(parent)) and parent.get("castKind") in (
@@ -453,6 +463,8 @@ class FnInfo:
             if d is not None:
                 _, c = split_params(qt(d))
                 read = c
+                if not c:
+                    nonconst_callee = mid      # resolved in Analyzer.summary: a body that writes no own member only reads
             else:
                 read = is_const_lvalue_type(t)
         elif pk == "CXXDeleteExpr":
@@ -466,7 +478,8 @@ class FnInfo:
             elif p.cast and not p.members:
                 pass
         elif p.root == "static_local":
-            self.effects.append({"kind": "static_local", "var": p.name, "write": not read})
+            self.effects.append({"kind": "static_local", "var": p.name, "write": not read, "init": self._in_static_init > 0,
+                                 "nonconst_callee": nonconst_callee})
         elif p.root == "global":
             nm = p.name
             if nm in IGNORED_GLOBALS:
@@ -490,15 +503,20 @@ class FnInfo:
         if k in ("CallExpr", "CXXMemberCallExpr", "CXXOperatorCallExpr"):
             cid, recv = _callee_id(n)
             rp = access_path(recv, self) if recv is not None else None
-            self.calls.append((cid, rp, _callee_name(kids(n)[0]) if kids(n) else None))
+            self.calls.append((cid, rp, _callee_name(kids(n)[0]) if kids(n) else None, self._in_static_init > 0))
         if k == "CXXConstructExpr":
             pass
         if k == "DeclStmt":
             for c in kids(n):
                 if c.get("kind") == "VarDecl" and c.get("storageClass") == "static":
                     self.effects.append({"kind": "static_local", "var": c.get("name"), "write": True, "decl": True, "type": qt(c)})
+        guarded = k == "VarDecl" and n.get("storageClass") == "static"
+        if guarded:
+            self._in_static_init += 1
         for c in kids(n):
             self._visit(c, n)
+        if guarded:
+            self._in_static_init -= 1
 
     def _visit_offspine(self, n):
         """visit the sub-expressions that are not part of the access path spine (array indices, call arguments)"""
@@ -554,9 +572,20 @@ class Analyzer:
         if i in stack or depth > 12:
             return {"effects": [], "reads": set()}
         fi = self.info(node)
-        effects = [dict(e, via=[fname(self.idx, node)]) for e in fi.effects]
+        effects = []
+        for e in fi.effects:
+            e = dict(e, via=[fname(self.idx, node)])
+            cal = e.pop("nonconst_callee", None)
+            if cal and e.get("write"):
+                # non-const member function called on a static: a write only if that body writes one of its own members
+                b2 = self.idx.body(cal)
+                if b2 is not None and b2["id"] != i and b2["id"] not in stack:
+                    s2 = self.summary(b2, depth + 1, stack + (i,))
+                    if not any(x["kind"] in ("own_write", "plain_write") for x in s2["effects"]):
+                        e["write"] = False
+            effects.append(e)
         reads = set(fi.reads)
-        for cid, recv, cname in fi.calls:
+        for cid, recv, cname, in_init in fi.calls:
             b = self.idx.body(cid) if cid else None
             if b is None:
                 self.stats["calls_unresolved"] += 1
@@ -580,7 +609,7 @@ class Analyzer:
                         effects.append(e2)
                     elif recv.root in ("static_local", "global"):
                         effects.append({"kind": "static_local" if recv.root == "static_local" else "global_write",
-                                        "var": recv.name, "write": True, "via": e2["via"]})
+                                        "var": recv.name, "write": True, "init": in_init, "via": e2["via"]})
                     # receiver is a parameter / local / temporary: an operand, not shared state
                 elif e["kind"] == "plain_write":
                     # write to an own member inside a NON-const callee; only matters if the receiver is this-rooted
@@ -589,7 +618,7 @@ class Analyzer:
                                         "how": "cast" if recv.cast else ("heap" if recv.deref else "mutable"), "via": e2["via"]})
                     elif recv is not None and recv.root in ("static_local", "global"):
                         effects.append({"kind": "static_local" if recv.root == "static_local" else "global_write",
-                                        "var": recv.name, "write": True, "via": e2["via"]})
+                                        "var": recv.name, "write": True, "init": in_init, "via": e2["via"]})
                 else:
                     effects.append(e2)
             if recv is not None and recv.root == "this" and not recv.members:
@@ -665,8 +694,23 @@ def is_copy_param(idx, m, cname):
     t = qt(ps[0])
     if "&&" in t or "&" not in t or "const" not in t:
         return None
-    tn = norm(t)
-    if re.search(r"(^|[^A-Za-z_0-9])" + re.escape(cname) + r"($|[^A-Za-z_0-9])", tn) or "Self_t" in tn:
+    tn = re.sub(r"\bconst\b", "", t).replace("&", "").replace("class ", "").replace("struct ", "").strip()
+    tn = re.sub(r"^(::)?Givaro::", "", tn)
+    def whole(x):
+        # x = NAME<...> with the bracket opened after NAME closed by the last character
+        if not x.startswith(cname + "<") or not x.endswith(">"):
+            return False
+        depth = 0
+        for i, ch in enumerate(x):
+            if ch == "<":
+                depth += 1
+            elif ch == ">":
+                depth -= 1
+                if depth == 0:
+                    return i == len(x) - 1
+        return False
+    same = tn == cname or whole(tn)
+    if same or tn == "Self_t" or (tn.endswith("::Self_t") and whole(tn[:-len("::Self_t")])):
         return ps[0]
     return None
 
@@ -745,7 +789,7 @@ def copy_ctor_map(idx, an, c, ctor, fields, depth=0):
             elif bc is not None:
                 bf, _, _ = class_fields(idx, bc)
                 for f in bf:
-                    mp[f["name"]] = ("other", "base not copy-constructed from the source")
+                    mp[f["name"]] = ("default",)      # base sub-object default-constructed, not copied
     if implicit_undumped:
         for f in fields:
             mp[f["name"]] = ("src", f["name"])
@@ -985,7 +1029,8 @@ def describe_class(idx, an, disp, c):
                     writes.append({"k": "own", "member": ".".join(e["path"]), "how": e["how"], "via": e.get("via", [])[-2:]})
             elif e["kind"] == "static_local":
                 if e.get("decl") or e.get("write"):
-                    writes.append({"k": "static_local", "member": e["var"], "how": "static", "via": e.get("via", [])[-2:]})
+                    writes.append({"k": "static_local", "member": e["var"], "how": "init" if (e.get("decl") or e.get("init")) else "static",
+                                   "via": e.get("via", [])[-2:]})
             elif e["kind"] == "global_write":
                 writes.append({"k": "global", "member": e["var"], "how": "static", "via": e.get("via", [])[-2:]})
             elif e["kind"] == "global_read":
@@ -997,7 +1042,7 @@ def describe_class(idx, an, disp, c):
             if key not in seenw:
                 seenw.add(key); uniq.append(w)
         ps, _ = split_params(qt(b))
-        mdesc.append({"name": b.get("name"), "sig": qt(b)[:160], "cls": cls.get("name"), "const": fi.is_const and not isstatic,
+        mdesc.append({"name": b.get("name"), "sig": qt(b)[:160], "params": ",".join(norm(x) for x in ps), "cls": cls.get("name"), "const": fi.is_const and not isstatic,
                       "static": isstatic, "reads": r_own, "writes": uniq, "line": b.get("loc", {}).get("line") or b.get("loc", {}).get("expansionLoc", {}).get("line")})
     # copy constructor as an operation ON THE SOURCE (C18: copy-construction from the shared object)
     if cc is not None and has_body(cc):
@@ -1009,6 +1054,11 @@ def describe_class(idx, an, disp, c):
         d["copy_ctor_shared_writes"] = src_writes
     else:
         d["copy_ctor_shared_writes"] = []
+    seen_uid = {}
+    for m in mdesc:
+        base = "%s@%s" % (m["name"], m.get("line"))
+        seen_uid[base] = seen_uid.get(base, 0) + 1
+        m["uid"] = base if seen_uid[base] == 1 else "%s#%d" % (base, seen_uid[base])
     d["methods"] = mdesc
     d["reads"] = sorted(reads)
     return d
@@ -1097,19 +1147,30 @@ def build_descriptions(log=None):
     idx = Index(objs)
     an = Analyzer(idx)
     descs, missing = [], []
+    id2disp = {}
     for disp, name, args in TARGETS:
         c = idx.find_class(name, args)
         if c is None:
             missing.append(disp)
             continue
+        id2disp[c["id"]] = disp
         descs.append(describe_class(idx, an, disp, c))
+    field_class = {}
+    for d in descs:
+        for f in d["members"]:
+            c2 = idx.find_class_by_type(f.get("type", ""))
+            if c2 is not None and c2.get("id") in id2disp:
+                field_class[(d["name"], f["name"])] = id2disp[c2["id"]]
+    descs = json.loads(json.dumps(descs, default=list))
+    compose_nested(descs, field_class)
     k = scan_kronecker()
     if k is not None:
         descs.append(k)
     else:
         missing.append("GFqKronecker (gfqkronecker.h unreadable)")
     meta = {"cached": False, "ast_objects": len(objs), "clang_seconds": round(t1 - t0, 2), "seconds": round(time.time() - t0, 2),
-            "decls_indexed": len(idx.decl), "classes_in_dump": len(idx.classes), "missing": missing, "stats": an.stats, "key": key}
+            "decls_indexed": len(idx.decl), "classes_in_dump": len(idx.classes), "missing": missing, "stats": an.stats, "key": key,
+            "nested_domain_members": sorted("%s.%s : %s" % (k[0], k[1], v) for k, v in field_class.items())}
     # tuples -> lists for JSON
     js = json.loads(json.dumps({"descs": descs, "meta": meta}, default=list))
     tmp = cp + ".tmp%d" % os.getpid()
@@ -1145,6 +1206,159 @@ def coq_src(v):
     return "SrcOther " + coq_str(v[1] if len(v) > 1 else "")
 
 
+# ---------------------------------------------------------------- normal form shared by the Coq emission and the python mirror
+
+def effects_of(d, m):
+    """list of (constructor, name[, via]) for one method description"""
+    types = {f["name"]: f.get("type", "") for f in d["members"]}
+    out = []
+    for w in m["writes"]:
+        root = w["member"].split(".")[0]
+        if w["k"] == "own":
+            if any(t in types.get(root, "") for t in RANDOM_TYPES):
+                e = ("WRandom", root)
+            else:
+                e = ("WOwn", root, {"mutable": "ViaMutable", "cast": "ViaCast", "heap": "ViaHeap"}.get(w["how"], "ViaCast"))
+        elif w["k"] == "static_local":
+            e = ("WRandom", root) if root in RANDOM_STATICS else (("WStaticInit", root) if w["how"] == "init" else ("WStaticLocal", root))
+        elif w["k"] == "global":
+            e = ("RExcluded", root) if root in EXCLUDED_GLOBALS else ("WGlobal", root)
+        elif w["k"] == "global_read":
+            e = ("RExcluded", root) if root in EXCLUDED_GLOBALS else ("RGlobal", root)
+        else:
+            continue
+        if e not in out:
+            out.append(e)
+    # a static that is also written outside its guarded initialisation is a plain static write
+    plain = {e[1] for e in out if e[0] == "WStaticLocal"}
+    out = [e for e in out if not (e[0] == "WStaticInit" and e[1] in plain)]
+    return out
+
+
+def copy_effects_of(d):
+    return [("WOwn", w["member"].split(".")[0], "ViaHeap") for w in d.get("copy_ctor_shared_writes", [])]
+
+
+def mname(m):
+    return m.get("uid") or "%s@%s" % (m["name"], m.get("line"))
+
+
+def msite(m):
+    """stable identification of a method for findings: defining class, name, parameter types (no line numbers)"""
+    return "%s::%s(%s)%s" % (m.get("cls"), m["name"], m.get("params", ""), " const" if m.get("const") else "")
+
+
+class Mirror:
+    """python mirror of the deciders of coq/C16/ObjModel.v (the Coq side re-computes them by vm_compute; gen/Decide.v states
+    the values computed here as lemmas, so a disagreement stops the Coq build)"""
+
+    def __init__(self, d):
+        self.d = d
+        self.members = [f["name"] for f in d["members"]]
+        self.cm, self.am = d.get("copy_map"), d.get("assign_map")
+        self.eff = {id(m): effects_of(d, m) for m in d["methods"]}
+        self.written = set()
+        for m in d["methods"]:
+            if m["const"]:
+                for e in self.eff[id(m)]:
+                    if e[0] in ("WOwn", "WRandom"):
+                        self.written.add(e[1])
+
+    def lookup(self, mp, x):
+        # the Coq map lists exactly the members, in order, SrcMissing when python has no entry
+        if x not in self.members:
+            return None
+        v = mp.get(x)
+        return list(v) if v is not None else ["missing"]
+
+    def copy_ok(self, x):
+        if self.cm is None:
+            return True
+        v = self.lookup(self.cm, x)
+        return v is not None and (v[:2] == ["src", x] or v[0] == "default")
+
+    def assign_ok(self, x):
+        if self.am is None:
+            return True
+        v = self.lookup(self.am, x)
+        return v is not None and v[:2] == ["src", x]
+
+    def stable(self, x):
+        return self.copy_ok(x) and self.assign_ok(x) and x not in self.written
+
+    def rc_ok(self):
+        sh = self.d.get("shared_heap_members") or []
+        if not sh:
+            return True
+        rc = self.d.get("rc")
+        if rc is None:
+            return False
+        return bool(rc["copy_incs"] and rc["destroy_decs"] and rc["destroy_frees"]
+                    and rc["assign_order"] in ("acquire_first", "release_first_guarded", "no_assign"))
+
+    def pure(self, m):
+        return all(e[0] == "RExcluded" for e in self.eff[id(m)])
+
+    def randomized(self, m):
+        return any(e[0] == "WRandom" for e in self.eff[id(m)])
+
+    def claimed(self, m):
+        return bool(m["const"]) and not self.randomized(m)
+
+    def shared_read_ok(self, x):
+        return x not in (self.d.get("shared_heap_members") or []) or self.rc_ok()
+
+    def method_sc(self, m):
+        return bool(m["const"]) and self.pure(m) and all(self.stable(x) for x in m["reads"]) and all(self.shared_read_ok(x) for x in m["reads"])
+
+    def method_rf(self, m):
+        return bool(m["const"]) and all(e[0] in ("RExcluded", "WStaticInit") for e in self.eff[id(m)])
+
+    def sc_offenders(self):
+        return [m for m in self.d["methods"] if self.claimed(m) and not self.method_sc(m)]
+
+    def rf_offenders(self):
+        return [m for m in self.d["methods"] if self.claimed(m) and not self.method_rf(m)]
+
+    def copy_rf(self):
+        return not copy_effects_of(self.d)
+
+    def why_sc(self, m):
+        """reasons a claimed method is not self-contained, as a list of (kind, detail)"""
+        r = []
+        fx = [e for e in self.eff[id(m)] if e[0] != "RExcluded"]
+        for e in fx:
+            r.append(({"WOwn": "own-write", "WStaticLocal": "static-local", "WStaticInit": "static-local", "WGlobal": "global-write", "RGlobal": "global-read"}[e[0]], e[1]))
+        for x in m["reads"]:
+            if not self.copy_ok(x):
+                r.append(("reads-member-not-copied", x))
+            if not self.assign_ok(x):
+                r.append(("reads-member-not-assigned", x))
+            if x in self.written:
+                r.append(("reads-member-written-on-const-path", x))
+            if not self.shared_read_ok(x):
+                r.append(("reads-shared-heap-with-bad-refcount", x))
+        return r
+
+
+def compose_nested(descs, field_class):
+    """a member whose type is itself a described class is copied / assigned by THAT class's special members: if those are
+    incomplete on the members its methods read, the outer map entry is not a faithful copy"""
+    by_name = {d["name"]: d for d in descs}
+    for d in descs:
+        for f in d["members"]:
+            inner = by_name.get(field_class.get((d["name"], f["name"])))
+            if inner is None or inner is d:
+                continue
+            mi = Mirror(inner)
+            badc = [x for x in inner["reads"] if not mi.copy_ok(x)]
+            bada = [x for x in inner["reads"] if not mi.assign_ok(x)]
+            if badc and d.get("copy_map") and list(d["copy_map"].get(f["name"], ["?"]))[0] == "src":
+                d["copy_map"][f["name"]] = ["other", "copied by the copy constructor of %s, incomplete for %s" % (inner["name"], ",".join(badc))]
+            if bada and d.get("assign_map") and list(d["assign_map"].get(f["name"], ["?"]))[0] == "src":
+                d["assign_map"][f["name"]] = ["other", "assigned by operator= of %s, incomplete for %s" % (inner["name"], ",".join(bada))]
+
+
 def emit_coq(descs, meta):
     out = ["(* GENERATED by harness/c16_objmodel.py from the clang JSON AST of harness/c16_inst.C compiled against the current",
            "   headers of the repository.  Do not edit: it is rewritten by every run of checks/C16.py and checks/C18.py. *)",
@@ -1156,29 +1370,19 @@ def emit_coq(descs, meta):
         members = [f["name"] for f in d["members"]]
         cm = d.get("copy_map")
         am = d.get("assign_map")
+
         def mapstr(mp):
             if mp is None:
                 return "None"
             return "Some " + coq_list(["(%s, %s)" % (coq_str(m), coq_src(mp.get(m))) for m in members])
+
+        def effstr(e):
+            return "%s %s%s" % (e[0], coq_str(e[1]), (" " + e[2]) if len(e) > 2 else "")
         meths = []
         for m in d["methods"]:
-            ws = []
-            for w in m["writes"]:
-                if w["k"] == "own":
-                    how = {"mutable": "ViaMutable", "cast": "ViaCast", "heap": "ViaHeap"}.get(w["how"], "ViaCast")
-                    ws.append("WOwn %s %s" % (coq_str(w["member"]), how))
-                elif w["k"] == "static_local":
-                    ws.append("WStaticLocal %s" % coq_str(w["member"]))
-                elif w["k"] == "global":
-                    ws.append("WGlobal %s" % coq_str(w["member"]))
-                elif w["k"] == "global_read":
-                    if w["member"] in EXCLUDED_GLOBALS:
-                        ws.append("RExcluded %s" % coq_str(w["member"]))
-                    else:
-                        ws.append("RGlobal %s" % coq_str(w["member"]))
             meths.append("{| m_name := %s; m_const := %s; m_reads := %s; m_effects := %s |}" % (
-                coq_str(m["name"] + "@" + str(m.get("line"))), "true" if m["const"] else "false",
-                coq_list([coq_str(r) for r in m["reads"]]), coq_list(ws)))
+                coq_str(mname(m)), "true" if m["const"] else "false",
+                coq_list([coq_str(r) for r in m["reads"]]), coq_list([effstr(e) for e in effects_of(d, m)])))
         rc = d.get("rc")
         if rc is None:
             rcs = "None"
@@ -1188,9 +1392,6 @@ def emit_coq(descs, meta):
             rcs = "Some {| rc_counter := %s; rc_copy_incs := %s; rc_destroy_decs := %s; rc_destroy_frees := %s; rc_assign := %s |}" % (
                 coq_str(rc["counter"] or ""), str(bool(rc["copy_incs"])).lower(), str(bool(rc["destroy_decs"])).lower(),
                 str(bool(rc["destroy_frees"])).lower(), order)
-        csw = []
-        for w in d.get("copy_ctor_shared_writes", []):
-            csw.append("WOwn %s ViaHeap" % coq_str(w["member"]))
         out.append("Definition %s : class_desc := {|" % idn)
         out.append("  cd_name := %s;" % coq_str(d["name"]))
         out.append("  cd_from_ast := %s;" % ("true" if d.get("source") == "clang-ast" else "false"))
@@ -1200,7 +1401,7 @@ def emit_coq(descs, meta):
         out.append("  cd_copy := %s;" % mapstr(cm))
         out.append("  cd_assign := %s;" % mapstr(am))
         out.append("  cd_reads := %s;" % coq_list([coq_str(r) for r in d["reads"]]))
-        out.append("  cd_copy_effects := %s;" % coq_list(csw))
+        out.append("  cd_copy_effects := %s;" % coq_list([effstr(e) for e in copy_effects_of(d)]))
         out.append("  cd_rc := %s;" % rcs)
         out.append("  cd_methods := %s" % ("[\n    " + ";\n    ".join(meths) + "]" if meths else "[]"))
         out.append("|}.")
@@ -1209,22 +1410,48 @@ def emit_coq(descs, meta):
     return "\n".join(out) + "\n"
 
 
+def emit_decide(descs):
+    """gen/Decide.v: the per-class decisions, computed here and RE-COMPUTED by Coq (vm_compute) from gen/Desc.v"""
+    sc, rf, cp, rc = [], [], [], []
+    for d in descs:
+        mi = Mirror(d)
+        sc.append("(%s, %s)" % (coq_str(d["name"]), coq_list([coq_str(mname(m)) for m in mi.sc_offenders()])))
+        rf.append("(%s, %s)" % (coq_str(d["name"]), coq_list([coq_str(mname(m)) for m in mi.rf_offenders()])))
+        cp.append("(%s, %s)" % (coq_str(d["name"]), "true" if mi.copy_rf() else "false"))
+        rc.append("(%s, %s)" % (coq_str(d["name"]), "true" if mi.rc_ok() else "false"))
+    sep = ";\n    "
+    return "\n".join([
+        "(* GENERATED by harness/c16_objmodel.py: the decisions per class.  Each lemma is re-decided by vm_compute on gen/Desc.v. *)",
+        "From Coq Require Import String List.", "From C16 Require Import ObjModel.", "From C16.gen Require Import Desc.", "Import ListNotations.", "Local Open Scope string_scope.", "",
+        "(* claimed const methods (not randomised) whose result is NOT shown to be a function of parameters and operands *)",
+        "Definition Decide_sc_stmt : Prop := map (fun d => (cd_name d, sc_offenders d)) all_descs =\n   [" + sep.join(sc) + "].",
+        "Lemma decide_sc : Decide_sc_stmt.", "Proof. vm_compute. reflexivity. Qed.", "",
+        "(* claimed const methods that write state other threads can see *)",
+        "Definition Decide_rf_stmt : Prop := map (fun d => (cd_name d, rf_offenders d)) all_descs =\n   [" + sep.join(rf) + "].",
+        "Lemma decide_rf : Decide_rf_stmt.", "Proof. vm_compute. reflexivity. Qed.", "",
+        "(* copy-construction from a shared object writes nothing shared *)",
+        "Definition Decide_copy_rf_stmt : Prop := map (fun d => (cd_name d, copy_rf_b d)) all_descs =\n   [" + sep.join(cp) + "].",
+        "Lemma decide_copy_rf : Decide_copy_rf_stmt.", "Proof. vm_compute. reflexivity. Qed.", "",
+        "(* shared heap parts are reference-counted by a protocol accepted by Refcount.refcount_safe *)",
+        "Definition Decide_rc_stmt : Prop := map (fun d => (cd_name d, rc_ok_b d)) all_descs =\n   [" + sep.join(rc) + "].",
+        "Lemma decide_rc : Decide_rc_stmt.", "Proof. vm_compute. reflexivity. Qed.", ""]) + "\n"
+
+
 if __name__ == "__main__":
     descs, meta, err = build_descriptions()
     if err:
         print(err); sys.exit(1)
     print(json.dumps(meta, indent=1))
     for d in descs:
-        bad_copy = [m for m in d["reads"] if not d.get("copy_map") or list(d["copy_map"].get(m, ["missing"]))[:2] not in (["src", m], ["default"])]
-        bad_asg = [] if d.get("assign_map") is None else [m for m in d["reads"] if list(d["assign_map"].get(m, ["missing"]))[:2] != ["src", m]]
-        ws = sorted(set((m["name"], w["k"], w["member"], w["how"]) for m in d["methods"] if m["const"] or w_static(m) for w in m["writes"])) if False else \
-            sorted(set((m["name"], w["k"], w["member"], w["how"]) for m in d["methods"] for w in m["writes"] if m["const"] or w["k"] != "own"))
+        mi = Mirror(d)
         print("== %s [%s] members=%d methods=%d(const %d) reads=%s" % (d["name"], d.get("source"), len(d["members"]), len(d["methods"]),
               sum(1 for m in d["methods"] if m["const"]), d["reads"]))
-        print("   copy-incomplete:", bad_copy, " assign-incomplete:", bad_asg, " assign:", "none" if d.get("assign_map") is None else "yes")
-        print("   writes:", ws)
-        print("   rc:", d.get("rc"), "shared:", d.get("shared_heap_members"), "copy-shared-writes:", d.get("copy_ctor_shared_writes"))
+        print("   sc offenders:", [(mname(m), mi.why_sc(m)) for m in mi.sc_offenders()])
+        print("   rf offenders:", [(mname(m), mi.eff[id(m)]) for m in mi.rf_offenders()])
+        print("   randomised:", [mname(m) for m in d["methods"] if m["const"] and mi.randomized(m)])
+        print("   rc:", d.get("rc") and d["rc"]["assign_order"], "rc_ok", mi.rc_ok(), "shared:", d.get("shared_heap_members"), "copy-effects:", copy_effects_of(d))
         if d["notes"]:
             print("   notes:", d["notes"])
     if len(sys.argv) > 1:
         open(sys.argv[1], "w").write(emit_coq(descs, meta))
+        open(os.path.join(os.path.dirname(sys.argv[1]), "Decide.v"), "w").write(emit_decide(descs))
